@@ -4,6 +4,7 @@
   Property statements live in `Props/C09.lean`.
 -/
 import OpmVerif.Model.SumFuns
+import OpmVerif.Proofs.SumFunsTable
 import Mathlib.Tactic.Ring
 import Mathlib.Tactic.Linarith
 import Mathlib.Algebra.Order.Field.Basic
@@ -737,5 +738,93 @@ theorem walk_eq_forest_factor (parent : String → Option String) (gefac : Strin
     intro x hx
     exact hg x hx
   rw [this]; ring
+
+
+/-! ## the whole evaluator update (`nodeValue`, what the driver runs) -/
+
+/-- The factor the evaluator uses for a well of the node's well set is exactly the `setFactors`
+walk (well-level non-totals: 1). -/
+theorem nodeCtx_efac (gs : List (GroupIn K)) (ws : List (WellIn K)) (cat : Cat) (node key : String)
+    (dt : K) (hn : ((findWells gs ws cat node).map (·.name)).Nodup)
+    (w : WellIn K) (hw : w ∈ findWells gs ws cat node) :
+    (nodeCtx gs ws cat node key dt).efac w.name =
+      if cat = .well ∧ configIsTotal key = false then 1
+      else walkUp (parentOf gs) (gefacOf gs)
+        (if cat = .group ∧ configIsTotal key = false then some node else none)
+        (gs.length + 1) w.group w.wefac := by
+  unfold nodeCtx setFactors
+  by_cases h : cat = .well ∧ configIsTotal key = false
+  · simp only [h, and_self, if_true, Option.getD_none, efacLookup]
+    rfl
+  · simp only [h, if_false, Option.getD_some]
+    generalize findWells gs ws cat node = l at hn hw
+    induction l with
+    | nil => cases hw
+    | cons a l ih =>
+      simp only [List.map_cons, List.nodup_cons] at hn
+      simp only [List.map_cons, efacLookup]
+      rcases List.mem_cons.mp hw with rfl | hm
+      · simp
+      · have hne : a.name ≠ w.name := by
+          intro heq; apply hn.1; rw [heq]; exact List.mem_map.mpr ⟨w, hm, rfl⟩
+        simp only [hne, if_false]
+        exact ih hn.2 hm
+
+/-- `cumulative_step` through the whole update: for a total key whose table entry is
+`mul r duration`, the stored value becomes previous + factor × (rate expression evaluated in the
+node's context) × dt. -/
+theorem node_cumulative (gs : List (GroupIn K)) (ws : List (WellIn K)) (cat : Cat) (node key : String)
+    (dt f prev R : K) (r : E) (u : String)
+    (hk : lookupFun key = some (.mul r .duration)) (htot : stateIsTotal key = true)
+    (hu : unitOf (.mul r .duration) = some u)
+    (hR : evalE (nodeCtx gs ws cat node key dt) r = some R) :
+    (nodeValue gs ws cat node key dt).map (fun vu => stateUpdate key prev (fromSi f vu.1)) =
+      some (prev + f * (R * dt)) := by
+  unfold nodeValue
+  rw [hk]
+  simp only [evalE_mul_duration _ r R hR, hu, Option.map_some, stateUpdate, htot, if_true, fromSi,
+    s_add, s_mul]
+  rfl
+
+/-! ## derived vectors: table entry and value together -/
+
+theorem liquid_value (c : Ctx K) :
+    ∀ x ∈ Table.levels, (lookupFun (Table.lvl x "LPR")).bind (evalE c) =
+      some (evalRate .wat false c + evalRate .oil false c) := by
+  have h : ∀ x ∈ Table.levels, lookupFun (Table.lvl x "LPR") =
+      some (.sum (.rate .wat false) (.rate .oil false)) := by
+    unfold lookupFun; rw [Table.lookupK_eq]; decide +kernel
+  intro x hx
+  rw [h x hx]; simp [evalE]
+
+theorem water_cut_value (c : Ctx K) :
+    ∀ x ∈ Table.levels, (lookupFun (Table.lvl x "WCT")).bind (evalE c) =
+      some (if evalRate .wat false c + evalRate .oil false c = 0 then 0
+            else evalRate .wat false c / (evalRate .wat false c + evalRate .oil false c)) := by
+  have h : ∀ x ∈ Table.levels, lookupFun (Table.lvl x "WCT") =
+      some (.div (.rate .wat false) (.sum (.rate .wat false) (.rate .oil false))) := by
+    unfold lookupFun; rw [Table.lookupK_eq]; decide +kernel
+  intro x hx
+  rw [h x hx]; simp [evalE]
+
+theorem gor_value (c : Ctx K) :
+    ∀ x ∈ Table.levels, (lookupFun (Table.lvl x "GOR")).bind (evalE c) =
+      some (if evalRate .oil false c = 0 then 0 else evalRate .gas false c / evalRate .oil false c) := by
+  have h : ∀ x ∈ Table.levels, lookupFun (Table.lvl x "GOR") =
+      some (.div (.rate .gas false) (.rate .oil false)) := by
+    unfold lookupFun; rw [Table.lookupK_eq]; decide +kernel
+  intro x hx
+  rw [h x hx]; simp [evalE]
+
+theorem voidage_value (c : Ctx K) :
+    ∀ x ∈ Table.levels, (lookupFun (Table.lvl x "VPR")).bind (evalE c) =
+      some (evalRate .reservoir_water false c + evalRate .reservoir_oil false c +
+            evalRate .reservoir_gas false c) := by
+  have h : ∀ x ∈ Table.levels, lookupFun (Table.lvl x "VPR") =
+      some (.sum (.sum (.rate .reservoir_water false) (.rate .reservoir_oil false))
+        (.rate .reservoir_gas false)) := by
+    unfold lookupFun; rw [Table.lookupK_eq]; decide +kernel
+  intro x hx
+  rw [h x hx]; simp [evalE]
 
 end OpmVerif.SumFuns.Proofs
